@@ -67,7 +67,22 @@ type Node struct {
 	// it: asserted is only that the binding ends with its instance - the instances of later
 	// items and what follows the loop read the name as if the setter did not exist.
 	Set *Setter `json:"set,omitempty"`
+	// List is the scoped-slot list of docs/components.md: the component list.vuego loops over its
+	// items prop and fills its <slot :item :index :note="item.note"> once per item; the page
+	// supplies the slot content, which reads the props of THAT item (and page variables).
+	List *ListCall `json:"list,omitempty"`
 }
+
+// ListCall: <template include="list.vuego" :items="ITEMS"><template v-slot="sp">CONTENT</template></template>,
+// or with destructuring v-slot="{ item, index, note }". Content is a probe whose paths start with
+// sp. (or are the bare prop names).
+type ListCall struct {
+	Items   string `json:"items"`
+	Destr   bool   `json:"destr,omitempty"`
+	Content Probe  `json:"content"`
+}
+
+const listFile = `<ul data-m="ul"><li data-m="li" v-for="(index, item) in items"><slot :item="item" :index="index" :note="item.note"></slot></li></ul>`
 
 // Setter: with If, <b data-m=ID v-if="cond"><template NAME="VAL"></template></b>; without,
 // the bare <template NAME="VAL"></template> (no element output).
@@ -405,11 +420,11 @@ func render(c Case, tpl string) (string, error) {
 	var err error
 	switch c.API {
 	case "", "string":
-		err = vuego.New(vuego.WithFS(memfs.FromMap(map[string]string{"comp.vuego": compFile}))).Fill(data).RenderString(context.Background(), &buf, tpl)
+		err = vuego.New(vuego.WithFS(memfs.FromMap(map[string]string{"comp.vuego": compFile, "list.vuego": listFile}))).Fill(data).RenderString(context.Background(), &buf, tpl)
 	case "fragment":
-		err = vuego.NewVue(memfs.FromMap(map[string]string{"page.vuego": tpl, "comp.vuego": compFile})).RenderFragment(&buf, "page.vuego", data)
+		err = vuego.NewVue(memfs.FromMap(map[string]string{"page.vuego": tpl, "comp.vuego": compFile, "list.vuego": listFile})).RenderFragment(&buf, "page.vuego", data)
 	case "load":
-		err = vuego.NewFS(memfs.FromMap(map[string]string{"page.vuego": tpl, "comp.vuego": compFile})).Load("page.vuego").Fill(data).Render(context.Background(), &buf)
+		err = vuego.NewFS(memfs.FromMap(map[string]string{"page.vuego": tpl, "comp.vuego": compFile, "list.vuego": listFile})).Load("page.vuego").Fill(data).Render(context.Background(), &buf)
 	default:
 		return "", fmt.Errorf("unknown api %q", c.API)
 	}
